@@ -15,8 +15,8 @@ func init() {
 
 var ab = []string{"a", "b"}
 
-var errKindCycle = []int{scen.ESentinel, scen.EWrapped, scen.ECustom, scen.EUncomparable, scen.ESentinel, scen.EJoined, scen.ECustom, scen.ETemporary, scen.EWrapped, scen.ECtxLike}
-var errKindName = map[int]string{scen.ESentinel: "sentinel", scen.EWrapped: "wrapped", scen.ECustom: "custom", scen.EUncomparable: "uncomparable-struct", scen.EJoined: "joined", scen.ETemporary: "temporary", scen.ECtxLike: "wraps-a-context-error"}
+var errKindCycle = []int{scen.ESentinel, scen.EWrapped, scen.ECustom, scen.EUncomparable, scen.ENestedRun, scen.EJoined, scen.ECustom, scen.ETemporary, scen.EWrapped, scen.ECtxLike}
+var errKindName = map[int]string{scen.ESentinel: "sentinel", scen.EWrapped: "wrapped", scen.ECustom: "custom", scen.EUncomparable: "uncomparable-struct", scen.EJoined: "joined", scen.ETemporary: "temporary", scen.ECtxLike: "wraps-a-context-error", scen.ENestedRun: "wraps-a-sub-run-error"}
 
 // tableScenario builds the scenario of one point of the exhaustive space:
 // nn nodes, 2 actions, target of every (node, action) ∈ {unconnected, nil, each node}, per-node scripts.
@@ -135,15 +135,35 @@ func runC03(c *Cfg) {
 	for _, n := range loops {
 		// self-loop: 0 --loop--> 0, 0 --exit--> 1
 		lc = append(lc, &scen.Scenario{Runs: 1, MaxCallbacks: 4*n + 100, Root: 2, Nodes: []scen.NodeSpec{
-			{Kind: (n % scen.NumScriptedKinds), N: 1, LoopN: n},
+			{Kind: (n % scen.NumScriptedKinds), N: 1 + n%4, LoopN: n}, // retry budgets have nothing to do with how often a self-loop is followed
 			{Kind: scen.KPlain, N: 1, Visits: []scen.Visit{{FirstOK: 1, Post: "fin"}}},
 			{Kind: scen.KFlow, N: 1, Flow: &scen.FlowSpec{Start: 0, Conns: []scen.Conn{{From: 0, Action: "loop", To: 0}, {From: 0, Action: "exit", To: 1}}}}}})
 		// two-node cycle: 0 --loop--> 1 --default--> 0, 0 --exit--> 2
 		lc = append(lc, &scen.Scenario{Runs: 1, MaxCallbacks: 8*n + 100, Root: 3, Nodes: []scen.NodeSpec{
-			{Kind: scen.KBase, N: 1, LoopN: n},
+			{Kind: scen.KBase, N: 2, LoopN: n},
 			{Kind: scen.KFnBldAny, N: 1, Visits: nil, LoopN: 0},
 			{Kind: scen.KPlain, N: 1, Visits: []scen.Visit{{FirstOK: 1, Post: "fin"}}},
 			{Kind: scen.KFlow, N: 1, Flow: &scen.FlowSpec{Start: 0, Conns: []scen.Conn{{From: 0, Action: "loop", To: 1}, {From: 1, Action: scen.EndAction, To: 0}, {From: 0, Action: "exit", To: 2}}}}}})
+	}
+	// short self-loops on nodes of every kind with retry budgets 2..3 (the loop goes round more often than the budget)
+	for kind := 0; kind < scen.NumScriptedKinds; kind++ {
+		for nb := 2; nb <= 3; nb++ {
+			for _, act := range []string{"loop", "default"} {
+				n0 := scen.NodeSpec{Kind: kind, N: nb, LoopN: nb + 2}
+				conns := []scen.Conn{{From: 0, Action: "loop", To: 0}, {From: 0, Action: "exit", To: 1}}
+				if act == "default" { // the loop is on the default action: post returns "" while looping
+					n0 = scen.NodeSpec{Kind: kind, N: nb}
+					for v := 0; v < nb+2; v++ {
+						n0.Visits = append(n0.Visits, scen.Visit{FirstOK: 1, Post: []string{"", "default"}[v%2]})
+					}
+					n0.Visits = append(n0.Visits, scen.Visit{FirstOK: 1, Post: "exit"})
+					conns = []scen.Conn{{From: 0, Action: "default", To: 0}, {From: 0, Action: "exit", To: 1}}
+				}
+				lc = append(lc, &scen.Scenario{Runs: 2, Root: 2, Nodes: []scen.NodeSpec{n0,
+					{Kind: scen.KPlain, N: 1, Visits: []scen.Visit{{FirstOK: 1, Post: "fin"}}},
+					{Kind: scen.KFlow, N: 1, Flow: &scen.FlowSpec{Start: 0, Conns: conns}}}})
+			}
+		}
 	}
 	parallel(c, len(lc), func(i int) {
 		outs, _ := judgeFor(c, "C03", "long-cycle", lc[i])
@@ -168,6 +188,16 @@ func runC03(c *Cfg) {
 		if sc.Runs > 1 && i%4 == 1 {
 			failSomewhere(rg.IntN(1<<30), sc) // a run that ends in an error, followed by further runs of the same flow object
 			r.Count("random.scenarios_with_failed_run_then_rerun", 1)
+		}
+		if i%4 == 2 {
+			// a node on the path fails for good, with every kind of error value (also ones that wrap a context error
+			// while the context is alive): the flow ends there, with that failure
+			failSomewhere(rg.IntN(1<<30), sc)
+			ek := scen.AllErrKinds[rg.IntN(len(scen.AllErrKinds))]
+			for ni := range sc.Nodes {
+				sc.Nodes[ni].ErrKind = ek
+			}
+			r.Count("random.scenarios_ending_in_failure", 1)
 		}
 		if i%5 == 3 {
 			addRandomMidConnects(rg, sc)
@@ -250,6 +280,32 @@ func runC04(c *Cfg) {
 		judgeFor(c, "C04", "flow-with-retries", frc[i])
 		r.Count("flow_with_retries.cases", 1)
 		r.Nontrivial("fr:" + scenSig(frc[i]))
+	})
+	// a run of a retried flow is cancelled inside some callback; the NEXT run of the same objects, with a live
+	// context, is judged on what its callbacks returned (a cancelled earlier run leaves nothing behind)
+	parallel(c, len(frc), func(i int) {
+		if i%3 != 0 {
+			return
+		}
+		ref := scen.NewExec(frc[i]).RunOnce()
+		for p := range ref.Events {
+			v := frc[i].Clone()
+			v.Runs = 2
+			v.Inject = scen.Inject{Kind: []string{"cancel", "deadline"}[(i+p)%2], At: p, OneRun: true, Run: 0}
+			x := scen.NewExec(v)
+			x.RunOnce()
+			o1 := x.RunOnce()
+			r.EvalN(2)
+			clean := v.Clone()
+			clean.Inject = scen.Inject{}
+			for _, f := range scen.Judge(clean, nil, &o1) {
+				if f.Prop == "C04" {
+					r.Violate("C04", "C04:after-cancelled-run:"+f.Key, fmt.Sprintf("run 0 was cancelled inside callback #%d; run 1 of the same objects (live context): %s", p, f.Detail), ScenCase{"rerun-after-cancelled-run", v})
+				}
+			}
+			r.Count("rerun_after_cancelled_run.cases", 1)
+			r.Nontrivial(fmt.Sprintf("rac %s|%d", scenSig(frc[i]), p))
+		}
 	})
 	// the context is cancelled inside the last permitted attempt, which fails: the run ends because of that failure
 	// (nothing was left to retry) and returns that error
